@@ -135,7 +135,11 @@ def report (ss : Session) : Session × String :=
   let sorted := (strs.toArray.qsort (· < ·)).toList
   let status := match ss.st.failed with
     | some e => "failed " ++ sErr e
-    | none => if (List.range ss.cfg.n).all (fun p => (ss.st.sims p).pc == .done) then "finished" else "running"
+    | none =>
+      if (List.range ss.cfg.n).all (fun p => (ss.st.sims p).pc == .done) then "finished"
+      else if (List.range ss.cfg.n).any (fun p => match (ss.st.sims p).pc with
+          | .inStep => true | .inGet => true | .awaitSettle _ (some _) => true | _ => false) then "running"
+      else "deadlock"
   ({ ss with seen := ss.st.log.length }, status ++ String.join (sorted.map (" | " ++ ·)))
 
 def modelDesc : P ModelDesc := do
